@@ -61,6 +61,13 @@ def line_dense_logits(seed, frames, nsym, amb, value_range='std'):
         # a network that emits log-probabilities: the winner of a confident frame sits at about -1e-9
         x = x * 4.0
         x = x - np.logaddexp.reduce(x, axis=1)[:, np.newaxis]
+    if value_range == 'subnormal':
+        # log-probabilities in double precision whose winners are subnormal numbers (not 0.0, but tiny)
+        x = x * 4.0
+        x = x - np.logaddexp.reduce(x, axis=1)[:, np.newaxis]
+        win = x.argmax(axis=1)
+        x[np.arange(frames), win] = -np.ldexp(1.0, -1060) * (1 + np.arange(frames) % 3)
+        return x.astype(np.float64)
     return x.astype(np.float32)
 
 
@@ -103,6 +110,10 @@ def build_line(line_spec, chars, line_id, y=40, width=200):
     logits = sparsify_like_engine(dense)
     if line_spec.get('dtype') == 'float64':
         logits = logits.astype(np.float64)       # e.g. logits merged or post-processed in double precision
+    if line_spec.get('container') == 'csc_array':
+        logits = sparse.csc_array(logits)        # scipy's newer sparse *array* containers
+    elif line_spec.get('container') == 'csr_matrix':
+        logits = sparse.csr_matrix(logits)
     coords = line_spec.get('coords')
     if coords == 'none':
         logit_coords = [None, None]
